@@ -1,5 +1,6 @@
 //! Verification library: reference models, generators, runner. No dependency on bnum.
 pub mod case;
+pub mod float_model;
 pub mod fmt_model;
 pub mod gen;
 pub mod parse_model;
